@@ -167,6 +167,9 @@ class GlomError(Exception):
         if set(self._tb_lines[0]) <= {' ', '^', '~'}:
             self._tb_lines = self._tb_lines[1:]
         self._scope = scope
+        # a copy of an error that already left an inner glom() call (and was
+        # rendered there) must render the trace of this call, not repeat that text
+        self._finalized_str = None
 
     def __str__(self):
         if getattr(self, '_finalized_str', None):
